@@ -52,6 +52,9 @@ fn gen(s: &mut Src, exh: u32) -> (Wm, Late, Vec<u64>) {
         let ts = (0..exh).map(|_| DOM[s.below(6)]).collect();
         return (wm, late, ts);
     }
+    if s.chance(1, 4) {
+        return gen_wide(s);
+    }
     let wm = if s.chance(1, 4) { Wm::Mono } else { Wm::Bounded(s.below(11) as u64) };
     let late = match s.below(4) {
         0 => Late::Drop,
@@ -67,6 +70,43 @@ fn gen(s: &mut Src, exh: u32) -> (Wm, Late, Vec<u64>) {
         _ => u64::MAX - 40,
     };
     let ts = (0..n).map(|_| base + s.below(31) as u64).collect();
+    (wm, late, ts)
+}
+
+/// Delays and allowed latenesses from the whole range a `Duration` in milliseconds can take (not only 0..10 ms):
+/// arbitrary, non-round values D and L below 2^k for a random k <= 44, and timestamps placed ON the boundaries the
+/// statement speaks of: c1*D + c2*L + e for small c1, c2 and e in {-1, 0, 1}, so that events land exactly on, one
+/// below and one above `largest timestamp - D` and exactly / one beyond `watermark - L`.
+fn gen_wide(s: &mut Src) -> (Wm, Late, Vec<u64>) {
+    let wide = |s: &mut Src| -> u64 {
+        match s.weighted(&[3, 3, 2, 1]) {
+            0 => 1001 + s.below(4000) as u64,
+            1 => s.below(1 << 20) as u64,
+            2 => {
+                let k = 1 + s.below(44);
+                s.bits64() & ((1u64 << k) - 1)
+            }
+            _ => *s.pick_ref(&[1000u64, 1001, 1023, 1024, 59_999, 60_000, 60_001, 3_600_000, 86_400_000, 86_400_001, (1 << 32) + 1, (1 << 53) + 1]),
+        }
+    };
+    let d = wide(s);
+    let l = if s.bool() { wide(s) } else { s.below(11) as u64 };
+    let wm = if s.chance(1, 8) { Wm::Mono } else { Wm::Bounded(d) };
+    let late = match s.below(4) {
+        0 => Late::Drop,
+        1 | 2 => Late::Allowed(l),
+        _ => if s.bool() { Late::Side } else { Late::Recompute },
+    };
+    let n = 2 + s.below(10);
+    let ts = (0..n)
+        .map(|_| {
+            let c1 = s.below(4) as u64;
+            let c2 = s.below(3) as u64;
+            let e = s.below(3) as i64 - 1;
+            let t = c1.saturating_mul(d).saturating_add(c2.saturating_mul(l));
+            if e < 0 { t.saturating_sub(1) } else { t.saturating_add(e as u64) }
+        })
+        .collect();
     (wm, late, ts)
 }
 
@@ -174,6 +214,9 @@ pub fn run(s: &mut Src, ctx: &mut Ctx) -> Verdict {
         if hist.windows(2).any(|w| w[0] >= w[1]) {
             return Verdict::fail("history-order", format!("step {}: history not strictly increasing {:?}", i, hist));
         }
+    }
+    if delay > 10 {
+        ctx.label("wide-delay(>10ms)");
     }
     if late_seen {
         ctx.label("has-late");
@@ -434,10 +477,10 @@ pub fn property() -> Property {
     Property {
         id: "C13",
         level: "exploration",
-        rule: "generated: timestamp sequences of length 0..12 over base+0..30 in any order x {BoundedOutOfOrder(0..10 ms), MonotonicAscending} x {Drop, AllowedLateness(0..10), SideOutput, RecomputeWindows}; plus exhaustive enumeration of all sequences of length 4..6 (quick) / 4..8 (thorough) over a 6-value domain x 20 configurations (every prefix is judged, so shorter sequences are covered). Oracle: watermark/late model from the statement, compared after every add_event (watermark value, monotonicity, events, side output, stats, conservation, history). Non-trivial: at least one late event and a watermark advance after it; distinct by (configuration, sequence). Part `components`: WatermarkGenerator and LateDataHandler driven directly (offer = is_late ? handle_late_event : process_event, as add_event composes them) with clear_side_output drains between offers; judged after every step: process_event returns Some(new watermark) exactly when it moved, the decision is the one the strategy prescribes and carries the event, total_late / dropped / allowed count every late event offered so far (a drain un-counts nothing), side_output is the current buffer size and the buffer holds the late events routed there since the last drain, is_late answers t < watermark.",
+        rule: "generated: timestamp sequences of length 0..12 over base+0..30 in any order x {BoundedOutOfOrder(0..10 ms), MonotonicAscending} x {Drop, AllowedLateness(0..10), SideOutput, RecomputeWindows}; one case in four instead takes delay D and lateness L from the whole millisecond range (non-round values from 1001 up to 2^44, minute/hour/day marks and their neighbours) with timestamps c1*D + c2*L + e (e in -1..1) placed on, just below and just above the boundaries the statement names; plus exhaustive enumeration of all sequences of length 4..6 (quick) / 4..8 (thorough) over a 6-value domain x 20 configurations (every prefix is judged, so shorter sequences are covered). Oracle: watermark/late model from the statement, compared after every add_event (watermark value, monotonicity, events, side output, stats, conservation, history). Non-trivial: at least one late event and a watermark advance after it; distinct by (configuration, sequence). Part `components`: WatermarkGenerator and LateDataHandler driven directly (offer = is_late ? handle_late_event : process_event, as add_event composes them) with clear_side_output drains between offers; judged after every step: process_event returns Some(new watermark) exactly when it moved, the decision is the one the strategy prescribes and carries the event, total_late / dropped / allowed count every late event offered so far (a drain un-counts nothing), side_output is the current buffer size and the buffer holds the late events routed there since the last drain, is_late answers t < watermark.",
         assumptions: vec!["The Periodic strategy reads the wall clock: its watermark values are not modelled; part `periodic` judges only what is stated relative to the watermark observed before each call (monotone, late iff below it, routing, statistics), with real sleeps past the interval in the generator but no clock in the oracle. Custom does nothing.".into()],
         parts: vec![
-            Part { name: "random", run, quick: Budget::Random { cases: 4_000_000, bytes: 40 }, thorough: Budget::Random { cases: 20_000_000, bytes: 40 }, min_nontrivial_pct: 15 },
+            Part { name: "random", run, quick: Budget::Random { cases: 4_000_000, bytes: 40 }, thorough: Budget::Random { cases: 60_000_000, bytes: 40 }, min_nontrivial_pct: 15 },
             Part { name: "periodic", run: run_periodic, quick: Budget::Random { cases: 10_000, bytes: 40 }, thorough: Budget::Random { cases: 60_000, bytes: 40 }, min_nontrivial_pct: 20 },
             Part { name: "components", run: run_components, quick: Budget::Random { cases: 1_000_000, bytes: 48 }, thorough: Budget::Random { cases: 8_000_000, bytes: 48 }, min_nontrivial_pct: 15 },
             Part { name: "exh4", run, quick: Budget::Exhaustive { param: 4 }, thorough: Budget::Exhaustive { param: 4 }, min_nontrivial_pct: 0 },
